@@ -170,6 +170,23 @@ pub fn run(run: &mut Run, tier: &str, seed: u64, only: Option<&str>) {
                 o.time = t;
             }
         }
+        // tiny-droplet threshold: event spacings of 45-110 ms (ticks every beat_len / tick_rate), long sliders
+        if rng.chance(1, 3) {
+            spec.slider_tick_rate = *rng.pick(&[2.0, 4.0]);
+            let bl = *rng.pick(&[180.0, 240.0, 280.0, 300.0, 316.0, 320.0, 324.0, 340.0, 400.0, 440.0]);
+            if let Some(t) = spec.timing.iter_mut().find(|t| t.uninherited) {
+                t.beat_len = bl;
+            }
+            for o in spec.objects.iter_mut() {
+                if let ObjKind::Slider { length, points, .. } = &mut o.kind {
+                    *length = *rng.pick(&[120.0, 200.0, 333.0, 480.0]);
+                    if let Some(last) = points.last_mut() {
+                        last.0 = (o.x + 300).min(512);
+                    }
+                }
+            }
+            run.count("pipe:tick-spacing-sweep");
+        }
         let text = spec.render();
         let Ok(map) = decode(&text) else {
             run.count("pipe:skipped:decode");
